@@ -135,7 +135,16 @@ class LockFile:
 
         if set_permissions:
             permission = int(file_permissions, base=8)
-            os.chmod(path, permission)
+            try:
+                os.chmod(path, permission)
+            except OSError as err:
+                # another process has locked, used and removed the new
+                # lock file already: this attempt failed, the caller retries
+                try:
+                    fp.close()
+                except Exception:
+                    pass
+                raise LockError("Couldn't lock {0}, error: {1}".format(path, err))
 
         try:
             _lock_file(fp)
